@@ -377,23 +377,51 @@ impl Exec {
 
 	// ---------------------------------------------------------------- oracle
 
-	/// Compare every observable of every column with the model.
+	/// Compare every observable of every column with the model; first failure only.
 	pub fn check(&self) -> Result<(), Fail> {
-		let r = catch_unwind(AssertUnwindSafe(|| self.check_inner()));
-		match r {
-			Err(e) => Err(Fail::new("panic", format!("read panicked: {}", panic_msg(e)))),
-			Ok(r) => r,
+		match self.check_all().into_iter().next() {
+			Some(f) => Err(f),
+			None => Ok(()),
 		}
 	}
 
-	fn check_inner(&self) -> Result<(), Fail> {
+	/// All failures (one per independent clause of the oracle).
+	pub fn check_all(&self) -> Vec<Fail> {
+		let mut out = vec![];
+		for ci in 0..self.model.cols.len() {
+			for clause in 0..3 {
+				let r = catch_unwind(AssertUnwindSafe(|| self.check_clause(ci, clause)));
+				match r {
+					Err(e) => out.push(Fail::new("panic", format!("read panicked: {}", panic_msg(e)))),
+					Ok(Err(f)) => out.push(f),
+					Ok(Ok(())) => (),
+				}
+			}
+		}
+		out
+	}
+
+	/// clause 0: point reads; 1: scans / value iteration; 2: tree walks
+	fn check_clause(&self, ci: usize, clause: u8) -> Result<(), Fail> {
 		let db = self.db();
-		let queue_empty = self.digest().commit_queue_len == 0;
-		for (ci, cm) in self.model.cols.iter().enumerate() {
+		let d = self.digest();
+		let queue_empty = d.commit_queue_len == 0;
+		let pending = d.log_overlay_index + d.log_overlay_value + d.log_overlay_ref_count;
+		{
+			let cm = &self.model.cols[ci];
 			let c = ci as u8;
 			let spec = &self.cfg.cols[ci];
 			match cm {
 				ColModel::Kv(m) => {
+					if clause == 1 {
+						if spec.btree {
+							self.check_btree_scan(c, m)?;
+						}
+						return Ok(())
+					}
+					if clause != 0 {
+						return Ok(())
+					}
 					for k in self.universe[ci].iter() {
 						let got = db.get(c, k).map_err(|e| Fail::new("error", format!("get(c{},{}) failed: {}", c, hex(k), e)))?;
 						let exp = m.get(k);
@@ -407,12 +435,15 @@ impl Exec {
 								"get_size(c{}, {}): expected {:?}, got {:?}", c, short_hex(k), exp.map(|v| v.len()), sz)))
 						}
 					}
-					if spec.btree {
-						self.check_btree_scan(c, m)?;
-					}
 				},
 				ColModel::Rc(m) => {
+					if clause == 2 {
+						return Ok(())
+					}
 					for k in self.universe[ci].iter() {
+						if clause != 0 {
+							break
+						}
 						let got = db.get(c, k).map_err(|e| Fail::new("error", format!("get(c{},{}) failed: {}", c, hex(k), e)))?;
 						match m.get(k) {
 							Some((v, cnt)) => {
@@ -431,7 +462,7 @@ impl Exec {
 								},
 						}
 					}
-					if !spec.btree && queue_empty && self.check_iter_rc {
+					if clause == 1 && !spec.btree && queue_empty && self.check_iter_rc {
 						let mut got: Vec<(Vec<u8>, u32)> = vec![];
 						db.iter_column_while(c, |s| {
 							got.push((s.value, s.rc));
@@ -447,11 +478,15 @@ impl Exec {
 								v.iter().map(|(v, n)| format!("{}B#{:x}x{}", v.len(), fnv(v, 1), n)).collect::<Vec<_>>().join(",")
 							};
 							return Err(Fail::new("iter-mismatch", format!(
-								"iter_column_while(c{}): expected [{}], got [{}]", c, sh(&exp), sh(&got))))
+								"iter_column_while(c{}): expected [{}], got [{}] ({})", c, sh(&exp), sh(&got),
+								if pending > 0 { "state: logged records not yet enacted" } else { "state: every logged record enacted" })))
 						}
 					}
 				},
-				ColModel::Tree(t) => crate::trees::check(self, c, t, queue_empty)?,
+				ColModel::Tree(t) =>
+					if clause == 2 {
+						crate::trees::check(self, c, t, queue_empty)?
+					},
 			}
 		}
 		Ok(())
